@@ -59,6 +59,14 @@ def run(ctx):
                 if sum(l - cfg["W"] + 1 for l in cfg["lens"]) < 12 * cfg["K"]:
                     cfg["lens"].append(cfg["W"] + 16 * cfg["K"])
             cfgs.append(cfg)
+        # series that are views of ONE parent array, listed out of their order in it
+        for j in range(3 if ctx.quick() else 12):
+            pv = tu.gen_config(ctx.rng, joint=True)
+            for k_ in ("dtype", "completion", "flat"):
+                pv.pop(k_, None)
+            pv.update({"beta": 5.0, "limit": 2, "K": 2, "W": max(2, pv["W"]), "parent_views": True})
+            pv["lens"] = [pv["W"] + ctx.rng.randint(20, 45) for _ in range(ctx.rng.choice([2, 3]))]
+            cfgs.append(pv)
         # scripted every run (not left to the draw): (1) two one-series joint calls with a switching cost other than
         # the default — they must equal the single-series front end; (2) two joint calls with the same number of series,
         # the same window and the same TOTAL number of windows but a different split
@@ -135,6 +143,8 @@ def run(ctx):
         with tu.patched(main_loop, "fit_stacked_data", fit):
             res, tr, err, series = tu.execute(cfg_run, record_states=False)
         ctx.count(f"series:{len(cfg['lens'])}")
+        if cfg.get("parent_views"):
+            ctx.count("runs_on_views_of_one_parent_array")
         if err is not None:
             ctx.count("runs_raised:" + type(err).__name__)
             ctx.case(("cfg", repr(sorted(cfg.items()))))
